@@ -212,6 +212,28 @@ func TestPropSweep(t *testing.T) {
 	evid.SetExhaustive("sweep")
 }
 
+// TestPropBoundary: every trouble unit at every offset 0..1100 of an otherwise plain string (defects that depend on a
+// block size or on the position of a multi-byte sequence relative to it), deterministic.
+func TestPropBoundary(t *testing.T) {
+	units := []string{"\U0001F600", "\U0010FFFF", "\u20ac", "\u00e9", "<", "&", "\x00", "\xff", "\xf0\x9f\x98", "\xed\xa0\x80", "\ufffe", "\U0001FFFE", "\ufffd"}
+	shard, n := evid.Shard()
+	off, u := shard, 0
+	fill := strings.Repeat("a", 1200)
+	evid.RunEnum(t, "boundary", func() (Case, bool) {
+		if off > 1100 {
+			return Case{}, false
+		}
+		c := Case{S: evid.BStr(fill[:off] + units[u] + "b" + units[(u+1)%len(units)] + "cd")}
+		u++
+		if u == len(units) {
+			u = 0
+			off += n
+		}
+		return c, true
+	}, checkEscape)
+	evid.SetExhaustive("boundary")
+}
+
 // FuzzEscape is the native fuzz target (thorough tier).
 func FuzzEscape(f *testing.F) {
 	for _, s := range append([]string{"<>\"'&", "\x00\x7f\xc2\x80", "\xed\xa0\x80", "\xf4\x90\x80\x80", "\xef\xbf\xbe", "a\xffb"}, dict...) {
@@ -227,5 +249,5 @@ func FuzzEscape(f *testing.F) {
 }
 
 func TestReplay(t *testing.T) {
-	evid.Replay(t, evid.R("escape", checkEscape), evid.R("fuzz", checkEscape), evid.R("sweep", checkEscape), evid.R("concat", checkConcat))
+	evid.Replay(t, evid.R("escape", checkEscape), evid.R("boundary", checkEscape), evid.R("fuzz", checkEscape), evid.R("sweep", checkEscape), evid.R("concat", checkConcat))
 }
